@@ -1,6 +1,7 @@
 package props17
 
 import (
+	"bytes"
 	"errors"
 	"fmt"
 	"os"
@@ -13,6 +14,7 @@ import (
 
 	"github.com/anishathalye/porcupine"
 
+	"gitlab.com/gomidi/midi/v2"
 	"gitlab.com/gomidi/midi/v2/drivers"
 	"gitlab.com/gomidi/midi/v2/drivers/midicatdrv"
 
@@ -763,4 +765,172 @@ func checkMidicatHistory(c *mon.Ctx, h *hist, desc map[string]any, nports int) {
 		}
 	}
 	c.Count("mc_callbacks_overlapping_stop", int64(inflight))
+}
+
+// runMidicatListenTo sends ordinary MIDI messages of every kind and length (1, 2 and 3 bytes, sysex)
+// with midi.SendTo through the process-backed driver and receives them with midi.ListenTo, the way
+// an application uses the ports. Every message sent after the pipeline is live and before an observed
+// sentinel must arrive exactly once, in order, with the same value.
+func runMidicatListenTo(c *mon.Ctx, r *mon.Rand, idx int64) {
+	dir := filepath.Join(c.Dir, fmt.Sprintf("mc-lt-%d-%d", c.Shard, idx))
+	os.MkdirAll(dir, 0o755)
+	defer os.RemoveAll(dir)
+	os.Setenv("VERIF_MC_DIR", dir)
+	os.Setenv("VERIF_MC_DELAY_US", "0")
+	drv, err := midicatdrv.New()
+	if err != nil {
+		c.Inconclusive("midicatdrv.New failed: " + err.Error())
+		return
+	}
+	ins, err1 := drv.Ins()
+	outs, err2 := drv.Outs()
+	if err1 != nil || err2 != nil || len(ins) < 1 || len(outs) < 1 {
+		c.Violation("mc:ports", fmt.Sprintf("Ins/Outs against the stand-in helper: %v %v", err1, err2), nil, nil, nil)
+		return
+	}
+	ch := func() uint8 { return uint8(r.Intn(14)) } // channels 14 and 15 are the sentinel's and the probe's
+	d := func() uint8 { return uint8(r.Intn(128)) }
+	var msgs []midi.Message
+	n := r.Range(8, 40)
+	for k := 0; k < n; k++ {
+		switch r.Intn(16) {
+		case 0:
+			msgs = append(msgs, midi.NoteOn(ch(), d(), 1+d()%127))
+		case 1:
+			msgs = append(msgs, midi.NoteOffVelocity(ch(), d(), d()))
+		case 2:
+			msgs = append(msgs, midi.ControlChange(ch(), d(), d()))
+		case 3, 4:
+			msgs = append(msgs, midi.ProgramChange(ch(), d()))
+		case 5, 6:
+			msgs = append(msgs, midi.AfterTouch(ch(), d()))
+		case 7:
+			msgs = append(msgs, midi.PolyAfterTouch(ch(), d(), d()))
+		case 8:
+			msgs = append(msgs, midi.Pitchbend(ch(), int16(r.Intn(16384)-8192)))
+		case 9:
+			msgs = append(msgs, midi.MTC(d()))
+		case 10:
+			msgs = append(msgs, midi.SPP(uint16(r.Intn(16384))))
+		case 11:
+			msgs = append(msgs, midi.SongSelect(d()))
+		case 12:
+			msgs = append(msgs, midi.Tune())
+		case 13:
+			msgs = append(msgs, midi.Message{[]byte{0xF8, 0xFA, 0xFB, 0xFC, 0xFE, 0xFF}[r.Intn(6)]})
+		default:
+			p := r.Bytes7(r.Pick(0, 1, 3, 10, 100))
+			msgs = append(msgs, midi.SysEx(p))
+		}
+	}
+	probe := midi.NoteOn(15, 1, 1)
+	sentinel := midi.NoteOn(14, 127, 127)
+	desc := map[string]any{"history": "midi.ListenTo + midi.SendTo on the process-backed driver", "messages": func() []string {
+		var l []string
+		for _, m := range msgs {
+			l = append(l, mon.Hex(m))
+		}
+		return l
+	}()}
+	var mu sync.Mutex
+	var got [][]byte
+	live, done := make(chan struct{}, 1), make(chan struct{}, 1)
+	var stop func()
+	h := &hist{}
+	if !guarded(c, h, "midi.ListenTo", func() {
+		stop, err = midi.ListenTo(ins[0], func(m midi.Message, ts int32) {
+			switch {
+			case bytes.Equal(m, probe):
+				select {
+				case live <- struct{}{}:
+				default:
+				}
+				return
+			case bytes.Equal(m, sentinel):
+				select {
+				case done <- struct{}{}:
+				default:
+				}
+				return
+			}
+			mu.Lock()
+			got = append(got, append([]byte(nil), m...))
+			mu.Unlock()
+		}, midi.UseSysEx(), midi.UseTimeCode(), midi.UseActiveSense())
+	}) {
+		return
+	}
+	if err != nil {
+		c.Violation("mc:listento", "midi.ListenTo on the process-backed in-port failed: "+err.Error(), desc, nil, err.Error())
+		return
+	}
+	defer func() {
+		guarded(c, h, "stop", stop)
+		ins[0].Close()
+		outs[0].Close()
+	}()
+	snd, err := midi.SendTo(outs[0])
+	if err != nil {
+		c.Violation("mc:sendto", "midi.SendTo on the process-backed out-port failed: "+err.Error(), desc, nil, err.Error())
+		return
+	}
+	// wait until the pipeline is live
+	deadline := time.Now().Add(waitObserve)
+	isLive := false
+	for !isLive && time.Now().Before(deadline) {
+		if e := snd(probe); e != nil {
+			c.Violation("mc:send-error", "Send of a probe failed: "+e.Error(), desc, nil, e.Error())
+			return
+		}
+		select {
+		case <-live:
+			isLive = true
+		case <-time.After(2 * time.Millisecond):
+		}
+	}
+	if !isLive {
+		c.Inconclusive(fmt.Sprintf("ListenTo history %d: probe not observed within %v", idx, waitObserve))
+		return
+	}
+	// let the probes still in flight drain before the measured part (they are filtered by value anyway)
+	for _, m := range msgs {
+		var e error
+		if !guarded(c, h, "Send", func() { e = snd(m) }) {
+			return
+		}
+		if e != nil {
+			c.Violation("mc:send-error", fmt.Sprintf("Send of % X failed: %v", []byte(m), e), desc, nil, e.Error())
+			return
+		}
+		c.Count("mc_listento_sends", 1)
+		c.SetAdd("mc_listento_message_lengths", fmt.Sprint(len(m)))
+	}
+	if e := snd(sentinel); e != nil {
+		c.Violation("mc:send-error", "Send of the sentinel failed: "+e.Error(), desc, nil, e.Error())
+		return
+	}
+	select {
+	case <-done:
+	case <-time.After(waitObserve):
+		c.Inconclusive(fmt.Sprintf("ListenTo history %d: sentinel not observed within %v", idx, waitObserve))
+		return
+	}
+	mu.Lock()
+	defer mu.Unlock()
+	c.Count("mc_listento_histories", 1)
+	var gl []string
+	for _, g := range got {
+		gl = append(gl, mon.Hex(g))
+	}
+	if len(got) != len(msgs) {
+		c.Violation("mc:listento-count", fmt.Sprintf("%d messages sent with midi.SendTo before the sentinel that arrived, %d delivered by midi.ListenTo", len(msgs), len(got)), desc, len(msgs), gl)
+		return
+	}
+	for k := range msgs {
+		if !bytes.Equal(got[k], msgs[k]) {
+			c.Violation("mc:listento-value", fmt.Sprintf("message %d sent as % X arrived as % X", k, []byte(msgs[k]), got[k]), desc, mon.Hex(msgs[k]), mon.Hex(got[k]))
+			return
+		}
+		c.Count("mc_listento_deliveries", 1)
+	}
 }
